@@ -6,7 +6,7 @@ All statements are about `Model/Reuse.lean` (tied to /repo by harness/c16.cpp vs
 quantify over ALL states / histories, not over reachable samples.  `World.obs` (Spec/Reuse.lean) is what a dump prints
 in its `code|` part; `Sim a b` = `a.obs = b.obs`.
 -/
-import AsmjitVerif.Lemmas.ReuseInv
+import AsmjitVerif.Lemmas.ReuseReinit
 namespace AsmjitVerif.Reuse
 
 /-! ### 1. the cleaning functions forget everything (every state, reachable or not) -/
@@ -49,7 +49,7 @@ theorem reset_holder_forgets (w : World) (hard : Bool) (hi : w.h.arch.isSome = t
 theorem reinit_holder_forgets (w : World) (hi : w.h.arch.isSome = true) :
     w.reinit.1.h.obs = ({ arch := w.h.arch, secs := [textSection], attached := w.h.attached } : Holder).obs := by
   have : w.h.arch.isNone = false := by cases h : w.h.arch <;> simp_all
-  simp [World.reinit, this, Holder.resetContainers, Holder.obs]
+  simp [World.reinit, this, Holder.resetContainers, Holder.obs, Holder.alloc]
 
 /-! ### 2. a reset world is a fresh world -/
 
@@ -165,7 +165,7 @@ theorem reinit_sim (a b : World) (h : Sim a b) : Sim a.reinit.1 b.reinit.1 ∧ a
   split
   · exact ⟨h, rfl⟩
   · refine ⟨sim_of_parts ?_ ?_, rfl⟩
-    · simp [Holder.resetContainers, Holder.obs, harch, hatt]
+    · simp [Holder.resetContainers, Holder.obs, Holder.alloc, harch, hatt]
     · simp only [reinitAll]
       rw [hatt]
       exact applyAll_congr _ onReinit_resp _ _ _ he
@@ -226,7 +226,7 @@ theorem init_sim (a b : World) (ar : Arch) (h : Sim a b) : Sim (a.init ar).1 (b.
     have h3 := congrArg Holder.unres hh
     have h4 := congrArg Holder.attached hh
     simp only [Holder.obs] at h1 h2 h3 h4 ⊢
-    simp [h1, h2, h3, h4]
+    simp [h1, h2, h3, h4, Holder.alloc]
 
 theorem attach_sim (a b : World) (i : Nat) (h : Sim a b) : Sim (a.attach i).1 (b.attach i).1 ∧ (a.attach i).2 = (b.attach i).2 := by
   obtain ⟨hh, he⟩ := sim_parts h
@@ -291,7 +291,7 @@ theorem detach_sim (a b : World) (i : Nat) (h : Sim a b) : Sim (a.detach i).1 (b
 theorem lifecycle_step_sim (a b : World) (op : Op) (hop : op.lifecycle = true) (h : Sim a b) :
     Sim (a.step op).1 (b.step op).1 ∧ (a.step op).2 = (b.step op).2 := by
   cases op <;> simp only [Op.lifecycle, Bool.false_eq_true] at hop
-  case world f => exact ⟨rfl, rfl⟩
+  case world f st => exact ⟨rfl, rfl⟩
   case init ar => exact init_sim a b ar h
   case reset hard => exact ⟨reset_sim a b hard h, rfl⟩
   case reinit => exact reinit_sim a b h
@@ -445,6 +445,49 @@ theorem wfHist_of_no_setters (h : List Op) (hn : ∀ op ∈ h, match op with | .
     have := hn op (by simp)
     cases op <;> simp_all [Op.wfAt]
 
+/-! ### 5b. reinit = a fresh holder with the same emitters attached -/
+
+/-- a freshly constructed, initialised holder (environment `arch`) that holds only the empty `.text` -/
+def freshHolder (arch : Option Arch) : Holder := { arch := arch, secs := [textSection] }
+
+/-- **the world "fresh objects, same configuration"**: a fresh holder initialised with `w`'s environment, and for every
+    emitter of `w` a freshly constructed emitter of the same kind and family - attached to that holder (`on_attach`) if it
+    is on `w`'s attachment list, untouched otherwise; the attachment list in `w`'s order. -/
+def freshAttached (w : World) : World :=
+  { h := { freshHolder w.h.arch with attached := w.h.attached },
+    es := w.es.mapIdx fun j e =>
+      if j ∈ w.h.attached then ({ kind := e.kind, fam64 := e.fam64 } : Emitter).onAttach (freshHolder w.h.arch)
+      else { kind := e.kind, fam64 := e.fam64 } }
+
+/-- **reinit = fresh holder with the same emitters attached**, for every world that satisfies the two invariants -/
+theorem reinit_sim_freshAttached (w : World) (hw : Inv w) (hA : InvA w) (hi : w.h.arch.isSome = true) :
+    Sim w.reinit.1 (freshAttached w) := by
+  have hn : w.h.arch.isNone = false := by cases h : w.h.arch <;> simp_all
+  apply sim_of_parts
+  · rw [reinit_holder_forgets w hi]; rfl
+  · have hes : w.reinit.1.es = applyAll Emitter.onReinit w.es w.h.attached := by simp [World.reinit, hn, reinitAll]
+    rw [hes]
+    apply List.ext_getElem?
+    intro j
+    simp only [freshAttached, List.getElem?_map, List.getElem?_mapIdx]
+    by_cases hj : j ∈ w.h.attached
+    · rw [applyAll_getElem?_mem_nodup _ _ hA.nd _ _ hj]
+      obtain ⟨e, h1, h2⟩ := hA.att j hj
+      simp only [h1, Option.map_some, hj, if_true]
+      obtain ⟨t1, t2, t3, t4, _⟩ := h2
+      congr 1
+      have t3' : e.instAlign = alignOf w.h.arch := t3
+      have t4' : e.invalidRex = (e.kind == Kind.asm && w.h.arch == some Arch.x86) := t4
+      exact reinit_eq_fresh_attach e (freshHolder w.h.arch) t1 t2 (by simpa [alignOf, freshHolder] using t3')
+        (by simpa [freshHolder] using t4') rfl
+    · rw [applyAll_getElem?_not_mem _ _ _ _ hj]
+      cases h1 : w.es[j]? with
+      | none => rfl
+      | some e =>
+        simp only [Option.map_some, hj, if_false]
+        congr 1
+        exact hw.dc j e h1 hj
+
 /-! ### 6. the rendered dump is a function of the observation -/
 
 theorem head_obs (e : Emitter) : e.obs.head = e.head := by
@@ -488,6 +531,122 @@ theorem dump_after_any_history (h p : List Op) (hard : Bool) (hwf : WFHist World
   obtain ⟨fam, _, _, hs⟩ := no_residue_after_any_history h p hard hwf
   exact ⟨fam, dumpCode_of_sim hs⟩
 
+/-- `freshAttached` with only the emitters in `done` attached so far -/
+def partialFA (w : World) (done : List Nat) : World :=
+  { h := { freshHolder w.h.arch with attached := done },
+    es := w.es.mapIdx fun j e =>
+      if j ∈ done then ({ kind := e.kind, fam64 := e.fam64 } : Emitter).onAttach (freshHolder w.h.arch)
+      else { kind := e.kind, fam64 := e.fam64 } }
+
+theorem onAttach_holder_irrel (h h' : Holder) (e : Emitter) (ha : h.arch = h'.arch) (hl : h.logger = h'.logger) (hs : h.secs = h'.secs) :
+    e.onAttach h = e.onAttach h' := by
+  cases e with | mk k _ _ _ _ _ _ _ _ _ _ _ _ _ _ _ _ _ _ _ _ _ _ =>
+  cases k <;> simp [Emitter.onAttach, Emitter.settingsUpdated, Emitter.updateForced, ha, hl, hs]
+
+/-- one `attach` of a not yet attached, compatible emitter moves `partialFA` one step -/
+theorem partialFA_attach (w : World) (done : List Nat) (i : Nat) (e : Emitter) (hi : w.es[i]? = some e) (hnd : i ∉ done)
+    (hok : archOk e.fam64 w.h.arch = true) : (partialFA w done).attach i = (partialFA w (done ++ [i]), "ok") := by
+  have hget : (partialFA w done).es[i]? = some ({ kind := e.kind, fam64 := e.fam64 } : Emitter) := by
+    simp [partialFA, List.getElem?_mapIdx, hi, hnd]
+  simp only [World.attach, hget]
+  have h1 : (!archOk ({ kind := e.kind, fam64 := e.fam64 } : Emitter).fam64 (partialFA w done).h.arch) = false := by
+    simp [partialFA, freshHolder, hok]
+  simp only [h1, Bool.false_eq_true, if_false]
+  congr 1
+  simp only [partialFA]
+  congr 1
+  apply List.ext_getElem?
+  intro j
+  rw [updAt_getElem?]
+  simp only [List.getElem?_mapIdx]
+  by_cases hji : j = i
+  · subst hji
+    simp only [hi, Option.map_some, hnd, if_false, if_true, List.mem_append, List.mem_singleton, or_true]
+    first
+      | (congr 1; exact onAttach_holder_irrel _ _ _ rfl rfl rfl)
+      | exact congrArg some (onAttach_holder_irrel _ _ _ rfl rfl rfl)
+      | rfl
+  · cases w.es[j]? with
+    | none => simp [hji]
+    | some x => simp [hji]
+
+/-- attaching the emitters of a duplicate-free list one after the other -/
+theorem partialFA_run (w : World) (rest : List Nat) : ∀ (done : List Nat),
+    (∀ i ∈ rest, ∃ e, w.es[i]? = some e ∧ archOk e.fam64 w.h.arch = true) → (done ++ rest).Nodup →
+    (partialFA w done).run (rest.map Op.attach) = partialFA w (done ++ rest) := by
+  induction rest with
+  | nil => intro done _ _; simp [World.run]
+  | cons i r ih =>
+    intro done hall hnd
+    obtain ⟨e, h1, h2⟩ := hall i (by simp)
+    have hni : i ∉ done := by
+      intro hm
+      have := List.nodup_append.mp hnd
+      exact this.2.2 i hm i (by simp) rfl
+    simp only [List.map_cons, World.run, World.step, partialFA_attach w done i e h1 hni h2]
+    have := ih (done ++ [i]) (fun j hj => hall j (by simp [hj])) (by simpa [List.append_assoc] using hnd)
+    simpa [List.append_assoc] using this
+
+/-- **operationally**: `freshAttached w` is (observationally) what freshly constructed objects reach by `init` with `w`'s
+    architecture followed by `attach` of `w`'s attached emitters in list order -/
+theorem freshAttached_is_init_then_attach (w : World) (hw : Inv w) (hA : InvA w) (a : Arch) (ha : w.h.arch = some a) :
+    ∃ fam, Sim ((freshOf fam).run (Op.init a :: w.h.attached.map Op.attach)) (freshAttached w) := by
+  obtain ⟨fam, hf⟩ := hw.fm
+  refine ⟨fam, ?_⟩
+  have hfa : freshAttached w = partialFA w ([] ++ w.h.attached) := by simp [freshAttached, partialFA]
+  have hrun := partialFA_run w w.h.attached [] (fun i hi => by
+    obtain ⟨e, h1, h2⟩ := hA.att i hi
+    exact ⟨e, h1, by have := h2.2.2.2.2; simpa [Emitter.tag] using this⟩) (by simpa using hA.nd)
+  rw [hfa, ← hrun]
+  simp only [World.run]
+  apply (no_residue _ _ _ ?_).2
+  -- the base: an initialised fresh world is the fresh holder with nothing attached
+  have hes : (partialFA w []).es = (freshOf fam).es := by
+    have h1 : (partialFA w []).es = w.es.map (fun e => ({ kind := e.kind, fam64 := e.fam64 } : Emitter)) := by
+      apply List.ext_getElem?
+      intro j
+      simp [partialFA, List.getElem?_mapIdx]
+    have h2 : w.es.map (fun e => ({ kind := e.kind, fam64 := e.fam64 } : Emitter)) =
+        (w.es.map proj).map (fun p => ({ kind := p.1, fam64 := p.2 } : Emitter)) := by simp [List.map_map, Function.comp_def, proj]
+    have h3 : ((freshOf fam).es.map proj).map (fun p => ({ kind := p.1, fam64 := p.2 } : Emitter)) = (freshOf fam).es := by
+      cases fam <;> rfl
+    rw [h1, h2, hf, h3]
+  apply sim_of_parts
+  · have hfh : (freshOf fam).h = ({} : Holder) := by cases fam <;> rfl
+    simp [World.step, World.init, hfh, partialFA, freshHolder, ha, Holder.obs, Holder.alloc]
+  · have hfh : (freshOf fam).h = ({} : Holder) := by cases fam <;> rfl
+    simp [World.step, World.init, hfh, hes]
+
+/-- **… after ANY history**: for every (well-formed) history `h` that leaves the holder initialised and every program `p`,
+    running `p` after `h` and `reinit()` answers exactly as on a fresh holder with fresh emitters attached in the same
+    order, and the dumps agree character for character. -/
+theorem reinit_after_any_history (h p : List Op) (hwf : WFHist World.fresh h)
+    (hi : (World.fresh.run h).h.arch.isSome = true) :
+    ((World.fresh.run h).reinit.1).trace p = (freshAttached (World.fresh.run h)).trace p ∧
+      dumpCode (((World.fresh.run h).reinit.1).run p) = dumpCode ((freshAttached (World.fresh.run h)).run p) := by
+  have hinv : Inv (World.fresh.run h) := inv_run h _ (inv_fresh false) hwf
+  have hA : InvA (World.fresh.run h) := invA_run h _ (inv_fresh false) (invA_fresh false) hwf
+  have := no_residue p _ _ (reinit_sim_freshAttached _ hinv hA hi)
+  exact ⟨this.1, dumpCode_of_sim this.2⟩
+
+/-- **reinit after any history, operationally**: after any (well-formed) history that leaves the holder initialised with
+    architecture `a`, `reinit()` followed by any program `p` answers exactly like: construct fresh objects, `init(a)`, `attach`
+    the emitters that were attached (same order), run `p` - and the dumps agree character for character. -/
+theorem reinit_after_any_history_eq_fresh_run (h p : List Op) (a : Arch) (hwf : WFHist World.fresh h)
+    (ha : (World.fresh.run h).h.arch = some a) :
+    ∃ fam, ((World.fresh.run h).reinit.1).trace p =
+        ((freshOf fam).run (Op.init a :: (World.fresh.run h).h.attached.map Op.attach)).trace p ∧
+      dumpCode (((World.fresh.run h).reinit.1).run p) =
+        dumpCode (((freshOf fam).run (Op.init a :: (World.fresh.run h).h.attached.map Op.attach)).run p) := by
+  have hinv : Inv (World.fresh.run h) := inv_run h _ (inv_fresh false) hwf
+  have hA : InvA (World.fresh.run h) := invA_run h _ (inv_fresh false) (invA_fresh false) hwf
+  have h1 := reinit_sim_freshAttached _ hinv hA (by simp [ha])
+  obtain ⟨fam, h2⟩ := freshAttached_is_init_then_attach _ hinv hA a ha
+  have hs : Sim (World.fresh.run h).reinit.1 ((freshOf fam).run (Op.init a :: (World.fresh.run h).h.attached.map Op.attach)) :=
+    h1.trans h2.symm
+  have := no_residue p _ _ hs
+  exact ⟨fam, this.1, dumpCode_of_sim this.2⟩
+
 /-- logging / validation switched at any point of any program never changes what the rest of the program produces -/
 theorem logging_never_reaches_output (w : World) (on : Bool) (i : Nat) (p : List Op) :
     (w.step (.hlogger on)).1.trace p = w.trace p ∧ (w.step (.elogger i on)).1.trace p = w.trace p ∧
@@ -509,7 +668,39 @@ theorem holder_fields_of_sim {a b : World} (h : Sim a b) :
   have h6 := congrArg Holder.attached hh
   exact ⟨h1, h2, h3, h4, h5, h6⟩
 
+/-! ### 7. arena memory: static vs dynamic, block sizes, retained blocks -/
+
+/-- replacing the holder's arena by ANY arena state - other static buffer, other block sizes (`shift`), other chain of
+    retained blocks, other fill level - gives an indistinguishable world … -/
+theorem any_arena_sim (w : World) (ar : Arena.State) : Sim ({ w with h := { w.h with arena := ar } } : World) w := rfl
+
+/-- … hence **no program's answers or dumps depend on the arena**: not on static vs dynamic memory, not on the size of
+    the static buffer, not on block sizes or on blocks retained by earlier soft resets. (In the model an arena request
+    cannot fail - `mallocMax` = 2^40 - so this is about layout, not about out-of-memory; failures are property C15's.) -/
+theorem arena_never_reaches_output (w : World) (ar : Arena.State) (p : List Op) :
+    ({ w with h := { w.h with arena := ar } } : World).trace p = w.trace p ∧
+      dumpCode (({ w with h := { w.h with arena := ar } } : World).run p) = dumpCode (w.run p) := by
+  have := no_residue p _ _ (any_arena_sim w ar)
+  exact ⟨this.1, dumpCode_of_sim this.2⟩
+
+/-- in particular for the two ways a `CodeHolder` is constructed -/
+theorem static_vs_dynamic_arena (w : World) (s1 s2 : Nat) (p : List Op) :
+    (w.withArena s1).trace p = (w.withArena s2).trace p ∧ dumpCode ((w.withArena s1).run p) = dumpCode ((w.withArena s2).run p) := by
+  have h : Sim (w.withArena s1) (w.withArena s2) := rfl
+  have := no_residue p _ _ h
+  exact ⟨this.1, dumpCode_of_sim this.2⟩
+
 /-! ### non-vacuity -/
+
+-- the arena really is driven by the operations and really differs between configurations:
+-- a 64-byte static buffer overflows into malloc'ed blocks, the default holder starts with no block at all
+example : (World.fresh.withArena 64).h.arena.blocks = [48] ∧ World.fresh.h.arena.blocks = [] := by decide
+example : ((World.fresh.withArena 64).run [.init .x64, .attach 0, .label 0, .nlabel 0 [102], .section 0 [46, 100]]).h.arena.blocks.length = 2 ∧
+    ((World.fresh.withArena 40000).run [.init .x64, .attach 0, .label 0, .nlabel 0 [102], .section 0 [46, 100]]).h.arena.blocks.length = 1 := by decide
+-- a soft reset keeps the blocks, a hard reset drops the malloc'ed ones
+example : (((World.fresh.withArena 64).run [.init .x64, .attach 0, .section 0 [46, 100]]).reset false).h.arena.blocks.length = 2 ∧
+    (((World.fresh.withArena 64).run [.init .x64, .attach 0, .section 0 [46, 100]]).reset true).h.arena.blocks.length = 1 := by decide
+
 
 /-- a history that fills every container (labels, a named label, fixups, a relocation, a second section, Builder nodes,
     a pending one-shot option, virtual registers, a jump annotation) … -/
@@ -550,7 +741,7 @@ example : ¬ Sim ((World.fresh.run [.opt 0 optShort, .init .x64]).reset false) W
 
 -- AArch64 emitters: a history with b-fixups, a relocation, Builder nodes, then reset / reinit
 def sampleHistoryA64 : List Op :=
-  [.world true, .init .a64, .attach 0, .attach 2, .attach 3, .label 0, .jmp 0 0, .raw 0 [31, 32, 3, 213], .elabel 0 0 8,
+  [.world true 4096, .init .a64, .attach 0, .attach 2, .attach 3, .label 0, .jmp 0 0, .raw 0 [31, 32, 3, 213], .elabel 0 0 8,
    .label 2, .jmp 2 1, .bind 2 1, .finalize 2, .vreg 3, .jann 3, .opt 0 optShort]
 example : (World.fresh.run sampleHistoryA64).h.unres = 2 ∧ (World.fresh.run sampleHistoryA64).h.relocs.length = 1 ∧
     ¬ Sim (World.fresh.run sampleHistoryA64) World.freshA64 := by decide
